@@ -16,8 +16,17 @@ def replay(rec):
         d = e
         for _ in range(sc['order']): d = quiet(b.ocp.der, d)
         pt = rec['point']
-        syms = b.x + b.u + b.p + b.v + [b.ocp.t]
-        vals = [fl(v) for v in pt['x']] + [fl(v) for v in pt['u']] + [fl(v) for v in pt['p']] + [fl(v) for v in pt['v']] + [fl(pt['t'])]
+        def blocks(syms, scal, vals, shapes):
+            # matrix-valued symbols take their values column-major
+            if not syms: return list(scal), [fl(v) for v in vals]
+            out, i0 = [], 0
+            for (r, c) in shapes:
+                out.append(ca.reshape(ca.DM([fl(v) for v in vals[i0:i0 + r * c]]), r, c)); i0 += r * c
+            return list(syms), out
+        xs, xv = blocks(getattr(b, 'xsyms', []), b.x, pt['x'], rec['decl'].get('xblocks') or [])
+        ps, pv = blocks(getattr(b, 'psyms', []), b.p, pt['p'], rec['decl'].get('pblocks') or [])
+        syms = xs + b.u + ps + b.v + [b.ocp.t]
+        vals = xv + [fl(v) for v in pt['u']] + pv + [fl(v) for v in pt['v']] + [fl(pt['t'])]
         f = ca.Function('d', syms, [d, e])
         dv, ev = f(*vals)
         res = []
